@@ -34,6 +34,7 @@ fn table(id: &str) -> Option<(RunFn, ReplayFn)> {
         "C09" => (props::c09::run_check, props::c09::replay),
         "C10" => (props::c10::run_check, props::c10::replay),
         "C11" => (props::c11::run_check, props::c11::replay),
+        "C12" => (props::c12::run_check, props::c12::replay),
         "C15" => (props::c15::run, props::c15::replay),
         _ => return None,
     })
